@@ -95,10 +95,10 @@ package graphql
 
 //@ func completePlannedValueCatchingError
 //@   trusted
-//@   assigns class:executionContext.Errors, class:FormattedError, class:fieldPlan.abstractAlternatives, class:M|*graphql.Object|*graphql.selectionPlan
+//@   assigns class:executionContext.Errors, class:FormattedError, class:M|*graphql.Object|*graphql.selectionPlan, class:graphql.selectionPlan, class:graphql.fieldPlan, class:M|string|int, class:M|string|bool, class:E|*graphql.fieldPlan, class:E|*ast.Field
 
 //@ func resolvePlannedField
-//@   assigns class:executionContext.Errors, class:FormattedError, class:fieldPlan.abstractAlternatives, class:M|*graphql.Object|*graphql.selectionPlan
+//@   assigns class:executionContext.Errors, class:FormattedError, class:M|*graphql.Object|*graphql.selectionPlan, class:graphql.selectionPlan, class:graphql.fieldPlan, class:M|string|int, class:M|string|bool, class:E|*graphql.fieldPlan, class:E|*ast.Field
 //@   props C04 C20 C06
 //@   nosafety
 //@   requires eCtx != nil && fp != nil && fp.fieldDef != nil
@@ -121,7 +121,7 @@ package graphql
 //@   functional
 
 //@ func executePlannedSelection
-//@   assigns class:executionContext.Errors, class:FormattedError, class:fieldPlan.abstractAlternatives, class:M|*graphql.Object|*graphql.selectionPlan
+//@   assigns class:executionContext.Errors, class:FormattedError, class:M|*graphql.Object|*graphql.selectionPlan, class:graphql.selectionPlan, class:graphql.fieldPlan, class:M|string|int, class:M|string|bool, class:E|*graphql.fieldPlan, class:E|*ast.Field
 //@   props C20 C13 C01
 //@   nosafety
 //@   requires eCtx != nil
@@ -135,7 +135,7 @@ package graphql
 //@   assigns nothing
 
 //@ func completePlannedListValue
-//@   assigns class:executionContext.Errors, class:FormattedError, class:fieldPlan.abstractAlternatives, class:M|*graphql.Object|*graphql.selectionPlan
+//@   assigns class:executionContext.Errors, class:FormattedError, class:M|*graphql.Object|*graphql.selectionPlan, class:graphql.selectionPlan, class:graphql.fieldPlan, class:M|string|int, class:M|string|bool, class:E|*graphql.fieldPlan, class:E|*ast.Field
 //@   props C20 C18 C04
 //@   nosafety
 //@   requires eCtx != nil && returnType != nil
@@ -144,7 +144,7 @@ package graphql
 //@   loop 1 invariant fresh(completedResults)
 
 //@ func completePlannedObjectValue
-//@   assigns class:executionContext.Errors, class:FormattedError, class:fieldPlan.abstractAlternatives, class:M|*graphql.Object|*graphql.selectionPlan
+//@   assigns class:executionContext.Errors, class:FormattedError, class:M|*graphql.Object|*graphql.selectionPlan, class:graphql.selectionPlan, class:graphql.fieldPlan, class:M|string|int, class:M|string|bool, class:E|*graphql.fieldPlan, class:E|*ast.Field
 //@   props C20 C04
 //@   nosafety
 //@   requires eCtx != nil && returnType != nil
@@ -152,7 +152,7 @@ package graphql
 //@   at[C20] call executePlannedSelection: assert arg0 == eCtx && arg1 == fp.sub && arg2 == result && arg3 == returnType && arg4 == path
 
 //@ func completePlannedAbstractValue
-//@   assigns class:executionContext.Errors, class:FormattedError, class:fieldPlan.abstractAlternatives, class:M|*graphql.Object|*graphql.selectionPlan
+//@   assigns class:executionContext.Errors, class:FormattedError, class:M|*graphql.Object|*graphql.selectionPlan, class:graphql.selectionPlan, class:graphql.fieldPlan, class:M|string|int, class:M|string|bool, class:E|*graphql.fieldPlan, class:E|*ast.Field
 //@   props C20 C04 C01
 //@   nosafety
 //@   requires eCtx != nil && fp != nil && (eCtx.plan == nil || !held(&eCtx.plan.abstractMu))
@@ -520,11 +520,12 @@ package graphql
 
 //@ func Plan.planMergedSelectionsForType
 //@   opt maypanic=true
+//@   assigns class:graphql.selectionPlan, class:graphql.fieldPlan, class:M|string|int, class:M|string|bool, class:E|*graphql.fieldPlan, class:E|*ast.Field
 
 //@ func Plan.abstractAlternative
 //@   props C01 C07 C09 C19
 //@   nosafety
-//@   assigns class:fieldPlan.abstractAlternatives, class:M|*graphql.Object|*graphql.selectionPlan
+//@   assigns class:M|*graphql.Object|*graphql.selectionPlan, class:graphql.selectionPlan, class:graphql.fieldPlan, class:M|string|int, class:M|string|bool, class:E|*graphql.fieldPlan, class:E|*ast.Field
 //@   requires p != nil && fp != nil && !held(&p.abstractMu)
 //@   ensures !held(&p.abstractMu)
 //@   panics !held(&p.abstractMu)
@@ -588,6 +589,7 @@ package graphql
 //@ func Plan.collectInto
 //@   props C01 C13 C20
 //@   nosafety
+//@   assigns class:graphql.selectionPlan, class:graphql.fieldPlan, class:M|string|int, class:M|string|bool, class:E|*graphql.fieldPlan, class:E|*ast.Field
 //@   requires p != nil
 //@   requires sp != nil
 //@   requires selectionSet != nil
@@ -597,6 +599,10 @@ package graphql
 //@   at[C13] call append#2: assert arg0 == sp.fields
 //@   at[C01,C20] call append#1: assert has(keyed, responseKey) && arg0 == sp.fields[keyed[responseKey]].fieldASTs
 //@   at[C01] call collectInto: assert arg0 == p && arg1 == parentType && arg3 == visitedFragmentNames && arg4 == sp && arg5 == keyed
+
+//@ func Plan.planMergedFieldChildren
+//@   trusted
+//@   assigns class:graphql.fieldPlan
 
 //@ func Plan.planMergedSelectionsForType
 //@   props C19 C01
